@@ -761,13 +761,14 @@ theorem machine_linearizable (S : Sys) (evs : List Ev) (hhttp : ∀ e ∈ evs, e
     (hnc : ∀ c, (a0.st c).client = none → a0.st c = {}) (sch : List Nat)
     (hfin : allFinished (mrun S evs (minit a0 evs) sch)) :
     let m := mrun S evs (minit a0 evs) sch
-    ∃ order : List Nat, order.Perm (List.range evs.length) ∧
+    let order := linOrder m.log
+    order.Perm (List.range evs.length) ∧
       (∀ t u, Before m.log (.respond t) (.invoke u) → Before order t u) ∧
       (∀ c, m.a.st c = (seqRun S evs order a0).1.st c) ∧ m.a.ids = (seqRun S evs order a0).1.ids ∧
       (seqRun S evs order a0).2.map Prod.fst = order ∧
       ∀ t o', (t, o') ∈ (seqRun S evs order a0).2 →
         ∃ e o, evs[t]? = some e ∧ m.ph[t]? = some (.finished o) ∧ sameRespF3 e o o' := by
-  intro m
+  intro m order
   have hls : LinState S evs a0 m := linstate_run S evs hhttp a0 hnc sch
   obtain ⟨b, outs, hseq, hrel, houts⟩ := hls.sim
   have hpl := hls.pl
@@ -784,7 +785,7 @@ theorem machine_linearizable (S : Sys) (evs : List Ev) (hhttp : ∀ e ∈ evs, e
     · intro ht
       obtain ⟨o, ho⟩ := hfin' t _ (List.getElem?_eq_getElem ht)
       exact ⟨o, .inr (by rw [List.getElem?_eq_getElem ht, ho])⟩
-  refine ⟨linOrder m.log, ?_, ?_, ?_, ?_, ?_, ?_⟩
+  refine ⟨?_, ?_, ?_, ?_, ?_, ?_⟩
   · rw [List.perm_ext_iff_of_nodup hpl.nodup List.nodup_range]
     intro t; rw [hmem t, List.mem_range]
   · intro t u hb
@@ -814,5 +815,97 @@ theorem machine_linearizable (S : Sys) (evs : List Ev) (hhttp : ∀ e ∈ evs, e
       simp only [Option.bind_some, Phase.out?, Option.some.injEq] at ho
       subst ho
       exact ⟨e, o2, he, rfl, hr⟩
+
+
+/-! ### precedence read off the phases -/
+
+/-- more bookkeeping between phases and log: who has been invoked, who has been answered -/
+structure PL2 (m : MState) : Prop where
+  fin : ∀ (t : Nat) (o : Out), m.ph[t]? = some (Phase.finished o) → Act.respond t ∈ m.log
+  idle : ∀ (t : Nat), m.ph[t]? = some Phase.idle → Act.invoke t ∉ m.log
+  inv : ∀ (t : Nat) (ph : Phase), m.ph[t]? = some ph → ph ≠ Phase.idle → Act.invoke t ∈ m.log
+
+theorem pl2_init (a : AS) (evs : List Ev) : PL2 (minit a evs) := by
+  refine ⟨?_, fun t _ h => by simp [minit] at h, ?_⟩
+  · intro t o h
+    simp only [minit, List.getElem?_map] at h
+    cases hh : evs[t]? <;> simp [hh] at h
+  · intro t ph h hne
+    simp only [minit, List.getElem?_map] at h
+    cases hh : evs[t]? <;> simp [hh] at h
+    exact absurd h.symm hne
+
+theorem pl2_step (S : Sys) (evs : List Ev) (m : MState) (t : Nat) (m' : MState) (h : PL2 m) (hs : MStep S evs m t m') :
+    PL2 m' := by
+  have key : ∀ (x y : Phase) (log' : List Act), m.ph[t]? = some y →
+      (∀ a, a ∈ m.log → a ∈ log') →
+      (∀ o, x = .finished o → Act.respond t ∈ log') → x ≠ .idle → Act.invoke t ∈ log' →
+      (∀ u, u ≠ t → Act.invoke u ∈ log' → Act.invoke u ∈ m.log) →
+      PL2 ⟨m'.a, m.ph.set t x, log'⟩ := by
+    intro x y log' hy hsub hfin hni hinv hother
+    refine ⟨?_, ?_, ?_⟩
+    · intro u o hu
+      have hu' : (m.ph.set t x)[u]? = some (Phase.finished o) := hu
+      rw [set_get _ _ _ x y hy] at hu'
+      by_cases hut : u = t
+      · subst hut; simp only [↓reduceIte, Option.some.injEq] at hu'; exact hfin o hu'
+      · simp only [hut, ↓reduceIte] at hu'; exact hsub _ (h.fin u o hu')
+    · intro u hu
+      have hu' : (m.ph.set t x)[u]? = some Phase.idle := hu
+      rw [set_get _ _ _ x y hy] at hu'
+      by_cases hut : u = t
+      · subst hut; simp only [↓reduceIte, Option.some.injEq] at hu'; exact absurd hu' hni
+      · simp only [hut, ↓reduceIte] at hu'
+        intro hmem; exact h.idle u hu' (hother u hut hmem)
+    · intro u ph hu hne
+      have hu' : (m.ph.set t x)[u]? = some ph := hu
+      rw [set_get _ _ _ x y hy] at hu'
+      by_cases hut : u = t
+      · subst hut; exact hinv
+      · simp only [hut, ↓reduceIte] at hu'; exact hsub _ (h.inv u ph hu' hne)
+  cases hs with
+  | invoke e he hp =>
+    exact key _ _ _ hp (fun a ha => by simp [ha]) (by intro o h; cases h) (by simp) (by simp)
+      (by intro u hut hu; simpa [hut] using hu)
+  | toCreate e he ph hp hph hn =>
+    exact key _ _ _ hp (fun a ha => ha) (by intro o h; cases h) (by simp)
+      (h.inv t ph hp (by rcases hph with rfl | rfl <;> simp)) (fun u _ hu => hu)
+  | lin e he ph hp hph hn =>
+    exact key _ _ _ hp (fun a ha => by simp [ha]) (by intro o h; cases h) (by simp)
+      (by simp [h.inv t ph hp (by rcases hph with rfl | rfl <;> simp)]) (by intro u _ hu; simpa using hu)
+  | create e he hp =>
+    exact key _ _ _ hp (fun a ha => ha) (by intro o h; cases h) (by simp) (h.inv t _ hp (by simp)) (fun u _ hu => hu)
+  | respond e he o hp =>
+    exact key _ _ _ hp (fun a ha => by simp [ha]) (by intro o' _; simp) (by simp)
+      (by simp [h.inv t _ hp (by simp)]) (by intro u _ hu; simpa using hu)
+
+theorem pl2_run (S : Sys) (evs : List Ev) (a : AS) (sch : List Nat) : PL2 (mrun S evs (minit a evs) sch) :=
+  mrun_induct S evs PL2 (fun m t m' hm hs => pl2_step S evs m t m' hm hs) _ (pl2_init a evs) sch
+
+theorem mstep_log (S : Sys) (evs : List Ev) (m m' : MState) (t : Nat) (hs : MStep S evs m t m') :
+    ∃ suf, m'.log = m.log ++ suf := by
+  cases hs with
+  | invoke e he hp => exact ⟨_, rfl⟩
+  | toCreate e he ph hp hph hn => exact ⟨[], by simp⟩
+  | lin e he ph hp hph hn => exact ⟨_, rfl⟩
+  | create e he hp => exact ⟨[], by simp⟩
+  | respond e he o hp => exact ⟨_, rfl⟩
+
+theorem mrun_log (S : Sys) (evs : List Ev) (m : MState) (sch : List Nat) : ∃ suf, (mrun S evs m sch).log = m.log ++ suf := by
+  induction sch generalizing m with
+  | nil => exact ⟨[], by simp [mrun]⟩
+  | cons t ts ih =>
+    unfold mrun
+    cases h : mstep S evs m t with
+    | none => exact ih m
+    | some m' =>
+      obtain ⟨s1, h1⟩ := mstep_log S evs m m' t (mstep_rel S evs m m' t h)
+      obtain ⟨s2, h2⟩ := ih m'
+      exact ⟨s1 ++ s2, by simp only [h2, h1, List.append_assoc]⟩
+
+theorem before_of_mem_append {α} (l1 l2 : List α) (x y : α) (hx : x ∈ l1) (hy : y ∈ l2) : Before (l1 ++ l2) x y := by
+  obtain ⟨a, b, rfl⟩ := List.append_of_mem hx
+  obtain ⟨c, d, rfl⟩ := List.append_of_mem hy
+  exact ⟨a, b ++ c, d, by simp⟩
 
 end Tcs
